@@ -14,7 +14,9 @@ Definition RA : akern R :=
      a_demand_met := An_demand_met;
      a_demands_ratio := An_demands_ratio;
      a_nema := An_nema;
-     a_minutes := An_minutes |}.
+     a_minutes := An_minutes;
+     a_energy_cost := An_energy_cost;
+     a_demand_charge := An_demand_charge |}.
 
 (* the recorded matrix of a ledger run, station-major as Simulator.charging_rates *)
 Definition station_major (by_period : list (list R)) (n : nat) : list (list R) :=
